@@ -670,11 +670,268 @@ func c17CountSub() *engine.Sub {
 	}
 }
 
+// ---- entries whose CAR section length sits on a varint boundary ----
+
+type c17SizeCase struct {
+	Section int    `json:"section"` // wanted CAR section length = 36 (CID) + sealed length
+	Format  string `json:"format"`
+	WStream bool   `json:"w_stream"`
+	RStream bool   `json:"r_stream"`
+}
+
+func (c *c17SizeCase) Weight() int { return c.Section }
+
+var c17SizedMemo sync.Map
+
+// c17SizedToken returns a sealed Ed25519 delegation whose sealed length is exactly n (nil if no
+// metadata length gives exactly n - CBOR heads grow in steps).
+func c17SizedToken(n int) *sealedTok {
+	if v, ok := c17SizedMemo.Load(n); ok {
+		return v.(*sealedTok)
+	}
+	k := fixtures.Get("ed25519", 0)
+	build := func(l int, pad int) *sealedTok {
+		t, err := delegation.New(k.DID, otherPrincipal(k, 1), "/a", nil, delegation.WithSubject(k.DID), delegation.WithNonce([]byte("0123456789ab")),
+			delegation.WithMeta("b", bytes.Repeat([]byte{0xa5}, l)), delegation.WithMeta("p", strings.Repeat("p", pad)))
+		if err != nil {
+			panic(err)
+		}
+		b, c, err := t.ToSealed(k.Priv)
+		if err != nil {
+			panic(err)
+		}
+		return &sealedTok{Tok: t, Sealed: b, Cid: c, Key: k}
+	}
+	base := len(build(0, 0).Sealed)
+	var res *sealedTok
+	if n >= base {
+		for pad := 0; pad < 4 && res == nil; pad++ {
+			for l := n - base - pad - 8; l <= n-base; l++ {
+				if l < 0 {
+					continue
+				}
+				if t := build(l, pad); len(t.Sealed) == n {
+					res = t
+					break
+				}
+			}
+		}
+	}
+	c17SizedMemo.Store(n, res)
+	return res
+}
+
+func c17SizeSub() *engine.Sub {
+	return &engine.Sub{
+		Name: "section-length-boundaries",
+		Rule: "a token whose sealed length makes its CAR section length (36-byte CID + data) exactly 127, 128, 129, 255, 256, 16383, 16384, 16385 (thorough: 2^21 - 1, 2^21, 2^21 + 1) - every unsigned-varint width boundary - alone and next to two ordinary tokens, through the 4 formats x writer {bytes, stream} x reader {bytes, stream}: the reader holds exactly the tokens added; non-trivial = all",
+		Bound: func(t string) string {
+			return "8 (thorough 11) section lengths x {alone, with 2 others} x 4 formats x 2 writers x 2 readers"
+		},
+		Gen: func(tier string, emit func(any) bool) {
+			secs := []int{127, 128, 129, 255, 256, 16383, 16384, 16385}
+			if tier == "thorough" {
+				secs = append(secs, 1<<21-1, 1<<21, 1<<21+1)
+			}
+			for _, sec := range secs {
+				for _, f := range []string{"car", "car64", "cbor", "cbor64"} {
+					for _, ws := range []bool{false, true} {
+						for _, rs := range []bool{false, true} {
+							if !emit(&c17SizeCase{Section: sec, Format: f, WStream: ws, RStream: rs}) {
+								return
+							}
+						}
+					}
+				}
+			}
+		},
+		NewCase: func() any { return &c17SizeCase{} },
+		Run: func(ctx *engine.Ctx, c any) {
+			cs := c.(*c17SizeCase)
+			t := c17SizedToken(cs.Section - 36)
+			ctx.States(1)
+			if t == nil {
+				ctx.Outcome("size-not-constructible")
+				return
+			}
+			ctx.Nontrivial(1)
+			for _, with := range [][]string{nil, {"dlg", "inv"}} {
+				w := container.NewWriter()
+				w.AddSealed(t.Cid, t.Sealed)
+				for _, n := range with {
+					o := ioToken(n)
+					w.AddSealed(o.Cid, o.Sealed)
+				}
+				ctx.Eval(2)
+				ctx.Trans(1)
+				data, err := writeContainer(w, cs.Format, cs.WStream)
+				if err != nil {
+					ctx.Outcome("write-error")
+					ctx.Failf(cs, "write-fails/"+cs.Format, "writing a container with a %d-byte token fails: %v", len(t.Sealed), err)
+					return
+				}
+				r, err := readContainer(data, cs.Format, cs.RStream)
+				if err != nil {
+					ctx.Outcome("read-error")
+					ctx.Failf(cs, "read-fails/"+cs.Format, "a %s container holding a token of %d bytes (CAR section length %d) written by the library cannot be read back: %v", cs.Format, len(t.Sealed), cs.Section, err)
+					return
+				}
+				if len(r) != 1+len(with) {
+					ctx.Failf(cs, "roundtrip-set-differs/"+cs.Format, "container with %d tokens reads back with %d", 1+len(with), len(r))
+					return
+				}
+				got, err := r.GetToken(t.Cid)
+				if err != nil || viewString(got, nil) != viewString(t.Tok, nil) {
+					ctx.Failf(cs, "roundtrip-set-differs/"+cs.Format, "the %d-byte token is missing or differs after the round trip: %v", len(t.Sealed), err)
+					return
+				}
+			}
+			ctx.Outcome("roundtrip-ok")
+		},
+	}
+}
+
+// ---- what a reader returns belongs to the caller; big containers with one bad entry ----
+
+type c17PrivCase struct {
+	Format string `json:"format"`
+	Mut    string `json:"mut"` // delete | add-foreign | replace
+}
+
+func c17PrivateSub() *engine.Sub {
+	return &engine.Sub{
+		Name:   "returned-reader-is-private",
+		Serial: true,
+		Rule:   "the same container bytes are read, the returned Reader (a map) is modified by the caller - an entry deleted, a foreign token added, an entry replaced - and the same bytes are read again (byte-slice and stream readers, 4 formats): the second result holds exactly the tokens of the bytes; non-trivial = all",
+		Bound:  func(string) string { return "4 formats x 3 modifications x 2 readers" },
+		Gen: func(tier string, emit func(any) bool) {
+			for _, f := range []string{"car", "car64", "cbor", "cbor64"} {
+				for _, m := range []string{"delete", "add-foreign", "replace"} {
+					if !emit(&c17PrivCase{f, m}) {
+						return
+					}
+				}
+			}
+		},
+		NewCase: func() any { return &c17PrivCase{} },
+		Run: func(ctx *engine.Ctx, c any) {
+			cs := c.(*c17PrivCase)
+			names := []string{"dlg", "inv", "dlg3"}
+			w := container.NewWriter()
+			for _, n := range names {
+				t := ioToken(n)
+				w.AddSealed(t.Cid, t.Sealed)
+			}
+			data, err := writeContainer(w, cs.Format, false)
+			if err != nil {
+				panic(err)
+			}
+			want := expectedSetView(names)
+			ctx.States(1)
+			ctx.Nontrivial(1)
+			for _, stream := range []bool{false, true} {
+				r1, err := readContainer(data, cs.Format, stream)
+				ctx.Eval(2)
+				ctx.Trans(1)
+				if err != nil || containerView(r1) != want {
+					ctx.Failf(cs, "read-fails/"+cs.Format, "first read fails or differs: %v", err)
+					return
+				}
+				foreign := ioToken("dlg2")
+				switch cs.Mut {
+				case "delete":
+					delete(r1, ioToken("inv").Cid)
+				case "add-foreign":
+					r1[foreign.Cid] = foreign.Tok.(*delegation.Token)
+				case "replace":
+					r1[ioToken("dlg").Cid] = foreign.Tok.(*delegation.Token)
+				}
+				r2, err := readContainer(data, cs.Format, stream)
+				if err != nil {
+					ctx.Failf(cs, "read-fails/"+cs.Format, "second read of the same bytes fails: %v", err)
+					return
+				}
+				if got := containerView(r2); got != want {
+					ctx.Outcome("second-read-differs")
+					ctx.Failf(cs, "second-read-shows-callers-modification/"+cs.Mut, "after the caller modified the Reader returned for these %s bytes (%s), reading the same bytes again (stream=%v) yields %d entries that are not the tokens of the bytes", cs.Format, cs.Mut, stream, len(r2))
+					return
+				}
+			}
+			ctx.Outcome("private")
+		},
+	}
+}
+
+type c17BigBadCase struct {
+	N      int    `json:"n"`
+	Bad    int    `json:"bad"` // index of the corrupted token
+	Format string `json:"format"`
+	Stream bool   `json:"stream"`
+}
+
+func (c *c17BigBadCase) Weight() int { return c.N }
+
+func c17BigBadSub() *engine.Sub {
+	return &engine.Sub{
+		Name:  "large-containers-with-one-bad-entry",
+		Rule:  "containers of 63, 64, 65, 130 and 300 tokens in which ONE token - the first, the second, one in the middle, the last but one, the last - has one signature bit flipped (for CAR: stored under the CID of its corrupted bytes, so that only the signature check can notice), 4 formats, byte-slice and stream readers: reading must fail; non-trivial = all",
+		Bound: func(string) string { return "5 sizes x 5 positions x 4 formats x 2 readers" },
+		Gen: func(tier string, emit func(any) bool) {
+			for _, n := range []int{63, 64, 65, 130, 300} {
+				for _, bad := range []int{0, 1, n / 2, n - 2, n - 1} {
+					for _, f := range []string{"car", "car64", "cbor", "cbor64"} {
+						for _, st := range []bool{false, true} {
+							if !emit(&c17BigBadCase{n, bad, f, st}) {
+								return
+							}
+						}
+					}
+				}
+			}
+		},
+		NewCase: func() any { return &c17BigBadCase{} },
+		Run: func(ctx *engine.Ctx, c any) {
+			cs := c.(*c17BigBadCase)
+			toks := c17ManyTokens()[:cs.N]
+			w := container.NewWriter()
+			for i, t := range toks {
+				if i == cs.Bad {
+					p := splitEnvelope(t.Sealed)
+					sig := append([]byte{}, p.Sig...)
+					sig[len(sig)/2] ^= 0x04
+					bad := assembleWithSig(sig, sigPayloadNode(p.Header, p.Tag, nMap(p.Payload...)))
+					w.AddSealed(refCID(bad), bad)
+					continue
+				}
+				w.AddSealed(t.Cid, t.Sealed)
+			}
+			data, err := writeContainer(w, cs.Format, false)
+			if err != nil {
+				panic(err)
+			}
+			ctx.States(1)
+			ctx.Nontrivial(1)
+			// several attempts: a reader that verifies entries concurrently decides by timing
+			for attempt := 0; attempt < 4; attempt++ {
+				ctx.Eval(1)
+				ctx.Trans(1)
+				r, err := readContainer(data, cs.Format, cs.Stream)
+				if err == nil {
+					ctx.Outcome("accepted")
+					ctx.Failf(cs, "corrupt-container-accepted/large/"+cs.Format, "a %s container of %d tokens whose token #%d has a flipped signature bit is read without error (%d entries returned)", cs.Format, cs.N, cs.Bad, len(r))
+					return
+				}
+			}
+			ctx.Outcome("rejected")
+		},
+	}
+}
+
 func C17() *engine.Check {
 	return &engine.Check{
 		Property: "C17",
 		Level:    "model_checking",
-		Subs:     []*engine.Sub{c17RoundtripSub(), c17CountSub(), c17CorruptSub(), c17WrongCidSub(), c17RawCarSub(), c17SeqSub(), c17ConcSub(), concRaceSub("C17")},
+		Subs:     []*engine.Sub{c17RoundtripSub(), c17CountSub(), c17SizeSub(), c17PrivateSub(), c17BigBadSub(), c17CorruptSub(), c17WrongCidSub(), c17RawCarSub(), c17SeqSub(), c17ConcSub(), concRaceSub("C17")},
 		Assumptions: []string{
 			"token pool of 4 sealed tokens (3 signature algorithms): every subset in every insertion order; plus sets of n distinct Ed25519 delegations for every n up to 40 and around 128 and 256",
 			"the CBOR container format does not store CIDs, so a wrong CID given to AddSealed is invisible there; only CAR readers can and must detect a CID that does not hash to the data",
